@@ -22,3 +22,17 @@ CHECKS["C06"] = {
         _sub("TestC06_Diff", 4000, 160000, sq=16, st=16),
     ],
 }
+
+CHECKS["C01"] = {
+    "level": "exploration",
+    "subs": [
+        _sub("TestC01_Converge", 3000, 100000, sq=16, st=16),
+    ],
+}
+
+CHECKS["C02"] = {
+    "level": "exploration",
+    "subs": [
+        _sub("TestC02_Model", 3000, 100000, sq=16, st=16),
+    ],
+}
